@@ -63,10 +63,47 @@ def run(chk):
             elif got != want:
                 chk.report("C01:value:%s:%s:%s" % (c["t"], kernel.OPNAME.get(c["op"], c["op"]), cls_of(c)),
                            "%s prints %s; Go's semantics give %s" % (kernel.call(c), got, want), {"case": c, "got": got, "want": want})
+    slices(chk, wa, thorough)
     chk.sample({"call": kernel.call(cs[0]), "want": kernel.expected_rt(cs[0], signed)})
     chk.sample({"call": kernel.call(cs[len(cs) // 2]), "want": kernel.expected_rt(cs[len(cs) // 2], signed)})
     chk.cov["exhaustive"] = True
     chk.cov["explanation"] = "every (type, operator, operand pair) case of WaIntCases for the listed types executed in compiled Wa programs (operands passed as parameters)"
+
+
+def slices(chk, wa, thorough):
+    """WaStore.tla: every transition (with a witness history) of the slice store machine"""
+    import random
+    rng = random.Random(common.seed())
+    cfg = open(common.SPECS + "/lang/store.cfg").read()
+    if not thorough:
+        cfg = cfg.replace("MaxOps = 4", "MaxOps = 3")
+    res = common.run_tlc("lang", "WaStoreMC", "s.cfg", files={"s.cfg": cfg}, collect_prefix='<<"T"', timeout=3000)
+    if res.violated:
+        raise MachineryError("WaStore.tla violates " + res.violated)
+    chk.tlc(res, "WaStore (slices: make/append/re-slice/element assignment)")
+    hs = [json.loads(common.parse_printt(l, "T")[0]) for l in res.lines]
+    if thorough and len(hs) > 120000:
+        hs = rng.sample(hs, 120000)
+    batches = list(common.chunks(hs, 3000))
+
+    def job(ib):
+        i, b = ib
+        return b, kernel.run_program(wa, kernel.store_encode([h["ops"] for h in b]), ".wa", i, "c01s")
+    for b, (rc, so, se, to) in common.parallel(job, list(enumerate(batches))):
+        lines = [l for l in so.splitlines() if l.startswith("V")]
+        for j, h in enumerate(b):
+            if j >= len(lines):
+                chk.report("C01:slices:abort", "program stops in the slice history %s: %s" % (json.dumps(h["ops"])[:200], (so + se)[-200:]), {"history": h})
+                break
+            chk.add("traces_validated_against_impl", 1)
+            got = kernel.store_parse(lines[j])
+            want = [h["want"]["s"], h["want"]["t"], h["want"]["u"]]
+            if got != want:
+                kinds = "+".join(sorted(set(o["op"] for o in h["ops"])))
+                chk.report("C01:slices:%s" % kinds, "slices after %s are %s; Go's semantics give %s" % (json.dumps(h["ops"])[:300], got, want),
+                           {"history": h, "got": got})
+    chk.cov["slice_histories"] = len(hs)
+    chk.sample({"slice_history": hs[len(hs) // 2]})
 
 
 def replay(chk, path):
